@@ -39,7 +39,8 @@ def plan_case(rng, tier):
         radius = round(rng.uniform(0.2, 60.0), 3)
     cx, cy = rng.uniform(-50, 250), rng.uniform(-50, 250)
     a0 = rng.uniform(0, 2 * math.pi)
-    kind = rng.choice(["full", "quarter", "random", "random", "random", "small", "large"])
+    kind = rng.choice(["full", "quarter", "random", "random", "random", "small", "large",
+                       "minute", "almost_full"])
     clockwise = rng.random() < 0.5
     sx, sy = cx + radius * math.cos(a0), cy + radius * math.sin(a0)
     if kind == "full":
@@ -49,16 +50,41 @@ def plan_case(rng, tier):
         sweep = {"quarter": rng.choice([0.5, 1.0, 1.5]) * math.pi,
                  "random": rng.uniform(0.2, 2 * math.pi - 0.2),
                  "small": rng.uniform(0.06, 0.3),
-                 "large": rng.uniform(2 * math.pi - 0.4, 2 * math.pi - 0.06)}[kind]
+                 "large": rng.uniform(2 * math.pi - 0.4, 2 * math.pi - 0.06),
+                 # end point a few 1e-4 length units before / after the start point: a circle
+                 # closed one lattice step short, or a move of one lattice step along the arc
+                 "minute": rng.uniform(0.0002, 0.004) / radius,
+                 "almost_full": 2 * math.pi - rng.uniform(0.0002, 0.004) / radius}[kind]
         a1 = a0 - sweep if clockwise else a0 + sweep
         ex, ey = cx + radius * math.cos(a1), cy + radius * math.sin(a1)
-    return {"sx": sx, "sy": sy, "i": cx - sx, "j": cy - sy, "ex": ex, "ey": ey,
+    i, j = cx - sx, cy - sy
+    if rng.random() < 0.4:
+        # coordinates as G-code files carry them: a few decimals.  (Offsets that are not exactly
+        # representable make start - (start + offset) differ from -offset in the last bits,
+        # which is what full circles are sensitive to.)
+        places = rng.choice([1, 2, 2, 3, 4])
+        sx, sy, i, j = round(sx, places), round(sy, places), round(i, places), round(j, places)
+        if abs(i) + abs(j) < 0.15:
+            i = 0.2
+        radius = math.hypot(i, j)
+        a0 = math.atan2(-j, -i)
+        if kind == "full":
+            ex, ey = sx, sy
+        else:
+            if kind in ("minute", "almost_full"):
+                gap = rng.uniform(0.0003, 0.004) / radius
+                sweep = gap if kind == "minute" else 2 * math.pi - gap
+            a1 = a0 - sweep if clockwise else a0 + sweep
+            ex = round(sx + i + radius * math.cos(a1), 4)
+            ey = round(sy + j + radius * math.sin(a1), 4)
+    return {"sx": sx, "sy": sy, "i": i, "j": j, "ex": ex, "ey": ey,
             "cw": clockwise, "full": kind == "full", "r": radius, "sweep": sweep}
 
 
 def observe_plan(case):
     event = {"k": "plan", "raised": "", "P": [], "steps": [], "cw": case["cw"],
              "full": case["full"], "endExact": False, "rmilli": int(round(case["r"] * 1000)),
+             "lmilli": int(round(case["sweep"] * case["r"] * 1000)),
              "tiny": False, "case": case}
     try:
         rig = make_handlers(case["sx"], case["sy"])
@@ -134,8 +160,22 @@ def deep_case(rng):
     half = rng.uniform(0.9, 1.4)
     clockwise = rng.random() < 0.5
     a0, a1 = (ang + half, ang - half) if clockwise else (ang - half, ang + half)
+    almost = rng.random() < 0.25
+    if almost:
+        # a circle closed a hair short: starts opposite Q, ends just behind the start point
+        gap = rng.uniform(0.0006, 0.003) / radius
+        a0 = ang + math.pi
+        a1 = a0 + gap if clockwise else a0 - gap
     sx, sy = cx + radius * math.cos(a0), cy + radius * math.sin(a0)
     ex, ey = cx + radius * math.cos(a1), cy + radius * math.sin(a1)
+    if almost:
+        # after rounding to the 1e-4 lattice the end must still be behind the start (or on it)
+        rsx, rsy, rex, rey = round(sx, 4), round(sy, 4), round(ex, 4), round(ey, 4)
+        rcx, rcy = rsx + round(cx - sx, 4), rsy + round(cy - sy, 4)
+        turn = (rsx - rcx) * (rey - rcy) - (rsy - rcy) * (rex - rcx)
+        behind = -turn if not clockwise else turn
+        if (rex, rey) != (rsx, rsy) and behind < 0.0002 * radius:
+            return None
 
     def inside(x, y):
         return x1 - 0.01 <= x <= x1 + w + 0.01 and y1 - 0.01 <= y <= y1 + h + 0.01
